@@ -38,6 +38,10 @@ import nfc.dep
 import nfc.tag
 import nfc.llcp.llc
 
+import logging
+logging.getLogger("nfc").addHandler(logging.NullHandler())
+logging.getLogger("nfc").propagate = False    # the stack logs every lost frame as a warning
+
 PID = "C18"
 OPTS = ("rdwr", "llcp", "card")
 
@@ -582,13 +586,14 @@ def run(tier, seed):
             c["k"] = 0 if c["env"] in ("nothing", "ioerror", "unsupported") else rnd.randint(0, 9)
             c["termAt"] = rnd.randint(0, 25)
             todo.append(c)
-    # "tag of each type": the rdwr branch runs against Type 1/2/3/4 tags (quick: one type per configuration,
-    # rotating; thorough: all four)
+    # "tag of each type": the rdwr branch runs against Type 1/2/3/4 tags (one type per configuration, rotating;
+    # thorough: all four for the configurations with rdwr alone)
     typed, n = [], 0
     for c in todo:
         if c["env"] == "tag" and c["has"]["rdwr"] and c["su"]["rdwr"] == "keep":
             n += 1
-            for tt in ((sorted(TAG_TYPES)[n % 4],) if quick else sorted(TAG_TYPES)):
+            one = quick or sum(1 for o in OPTS if c["has"][o]) > 1
+            for tt in ((sorted(TAG_TYPES)[n % 4],) if one else sorted(TAG_TYPES)):
                 typed.append(dict(c, ttype=tt))
         else:
             typed.append(c)
